@@ -5,8 +5,8 @@
 (*      of is_validator_condition / is_pred_to                            *)
 (*   B  CFG paths; soundness, completeness and termination of the         *)
 (*      faithful stack search find_path                                   *)
-(*   C  condition collection: edge dropped <-> the RAW block list found   *)
-(*      passes a validated step; what is proved about the found path      *)
+(*   C  condition collection: edge dropped <-> the block path found       *)
+(*      passes a validated step                                           *)
 (*   D  the executable spec (prune / ideal_kept) is exact                 *)
 (*   E  the full statement and its refutations (vm_compute witnesses)     *)
 (*   F  sanitizers: a worklist traversal that does not expand stop nodes  *)
@@ -183,7 +183,7 @@ Qed.
 Lemma search_sound : forall fuel g src dst visited stack raw,
   Forall (rpath g src) stack ->
   search fuel g dst visited stack = Found raw ->
-  exists t, rpath g src (dst :: t) /\ raw = rev (dst :: t) ++ [dst].
+  exists t, rpath g src (dst :: t) /\ raw = rev (dst :: t).
 Proof.
   induction fuel as [|f IH]; simpl; intros g src dst visited stack raw HF H; [discriminate|].
   destruct stack as [|cur rest]; [discriminate|].
@@ -203,7 +203,7 @@ Qed.
 
 Theorem find_path_fuel_sound : forall fuel g src dst raw,
   find_path_fuel fuel g src dst = Found raw ->
-  exists t, rpath g src (dst :: t) /\ raw = rev (dst :: t) ++ [dst].
+  exists t, rpath g src (dst :: t) /\ raw = rev (dst :: t).
 Proof.
   intros fuel g src dst raw H. unfold find_path_fuel in H.
   eapply search_sound; [|exact H].
@@ -444,11 +444,10 @@ Proof.
 Qed.
 
 Theorem find_path_sound : forall g src dst raw,
-  find_path g src dst = Found raw ->
-  exists p, cfg_path g src dst p /\ raw = p ++ [dst].
+  find_path g src dst = Found raw -> cfg_path g src dst raw.
 Proof.
   intros g src dst raw H. apply find_path_fuel_sound in H. destruct H as (t & Ht & Er).
-  exists (rev (dst :: t)). split; auto. exists t; auto.
+  exists t; auto.
 Qed.
 
 Theorem find_path_none : forall g src dst,
@@ -525,43 +524,16 @@ Proof.
     exists c. split; auto. apply filter_In. split; auto. apply spc_in. eauto.
 Qed.
 
-Lemma adjacent_snoc : forall b s q d d',
-  adjacent b s ((q ++ [d]) ++ [d']) -> adjacent b s (q ++ [d]) \/ (b = d /\ s = d').
-Proof.
-  intros b s q d d' (l1 & l2 & E).
-  destruct (rev l2) as [|x l2r] eqn:R.
-  - (* l2 = [] : s is the last element d', b the one before: d *)
-    assert (l2 = []) by (rewrite <- (rev_involutive l2), R; reflexivity). subst l2.
-    right.
-    assert (E' : (q ++ [d]) ++ [d'] = (l1 ++ [b]) ++ [s]) by (rewrite E, <- app_assoc; reflexivity).
-    apply app_inj_tail in E'. destruct E' as [E1 E2]. apply app_inj_tail in E1. destruct E1 as [_ E1]. auto.
-  - left.
-    assert (l2 = rev l2r ++ [x]) by (rewrite <- (rev_involutive l2), R; reflexivity). subst l2.
-    assert (E' : (q ++ [d]) ++ [d'] = (l1 ++ b :: s :: rev l2r) ++ [x]).
-    { rewrite E. rewrite <- app_assoc. simpl. reflexivity. }
-    apply app_inj_tail in E'. destruct E' as [E1 _]. exists l1, (rev l2r). exact E1.
-Qed.
-
-Lemma rev_cons_snoc : forall (d : nat) t, exists q, rev (d :: t) = q ++ [d].
-Proof. intros. exists (rev t). reflexivity. Qed.
-
-(* What IS proved about the code as it is: the block list found is a real CFG path (followed by a second copy of the
-   destination block), and if the edge is dropped then this path takes a validated branch -- or the destination block
-   itself ends in a validated branch back to itself (the artefact of the duplicated last block). *)
+(* What IS proved about the code as it is (after the PathToLeaf repair): the block list found is a real CFG path, and the
+   edge is dropped exactly when THIS path takes a branch on which a validator accepted v. *)
 Theorem validator_single_path_partial : forall g src dst v raw,
   find_path g src dst = Found raw ->
   edge_dropped (as_predicate_to (simple_path_condition g raw) v) = true ->
-  exists p, cfg_path g src dst p /\ raw = p ++ [dst] /\
-            (passes_validated_branch g p v \/ step_validated g v dst dst = true).
+  cfg_path g src dst raw /\ passes_validated_branch g raw v.
 Proof.
-  intros g src dst v raw HF HD.
-  destruct (find_path_sound g src dst raw HF) as (p & Hp & Er).
-  exists p. split; auto. split; auto.
-  apply dropped_iff_raw_validated in HD. destruct HD as (b & s & Ha & Hs).
-  destruct Hp as (t & Ht & Ep). destruct (rev_cons_snoc dst t) as [q Eq].
-  rewrite Er, Ep, Eq in Ha. apply adjacent_snoc in Ha. destruct Ha as [Ha|[E1 E2]].
-  - left. exists b, s. split; auto. rewrite Ep, Eq. exact Ha.
-  - right. subst. exact Hs.
+  intros g src dst v raw HF HD. split.
+  - apply find_path_sound; auto.
+  - apply dropped_iff_raw_validated; auto.
 Qed.
 
 (* boolean version of passes_validated_branch, for the concrete witnesses *)
@@ -692,9 +664,9 @@ Theorem ideal_kept_exact : forall g src dst v,
    (exists p, cfg_path g src dst p /\ ~ passes_validated_branch g p v)).
 Proof.
   intros g src dst v WF. unfold ideal_kept. split.
-  - intros [raw H]. apply find_path_sound in H. destruct H as (p & (t & Ht & Ep) & _).
+  - intros [raw H]. apply find_path_sound in H. destruct H as (t & Ht & Ep).
     apply rpath_prune in Ht. destruct Ht as [Ht U].
-    exists p. split; [exists t; auto|]. subst p. apply unvalidated_iff. exact U.
+    exists raw. split; [exists t; auto|]. subst raw. apply unvalidated_iff. exact U.
   - intros (p & (t & Ht & Ep) & NP). apply find_path_complete; [apply wf_prune; auto|].
     exists t. apply rpath_prune. split; auto. apply unvalidated_iff. subst p. exact NP.
 Qed.
@@ -729,14 +701,6 @@ Definition validator_only_all_paths : Prop :=
     edge_dropped (as_predicate_to (simple_path_condition g raw) v) = true ->
     forall p, cfg_path g src dst p -> passes_validated_branch g p v.
 
-(* the weaker statement one might hope for: at least the path that was found takes a validated branch *)
-Definition found_path_validated : Prop :=
-  forall (g : cfg) (src dst : nat) (v : vexpr) (raw : list nat),
-    wf_cfg g ->
-    find_path g src dst = Found raw ->
-    edge_dropped (as_predicate_to (simple_path_condition g raw) v) = true ->
-    exists p, raw = p ++ [dst] /\ cfg_path g src dst p /\ passes_validated_branch g p v.
-
 Definition vx : vexpr := VAtom 7.
 Definition valid_x : cexpr := CCall true RBool [vx].           (* Validate(x) *)
 Definition not_valid_x : cexpr := CUn true valid_x.            (* !Validate(x) *)
@@ -754,7 +718,7 @@ Definition triangle : cfg :=
   [ mkBlock [1; 2] (Some (1, invalid_x)); mkBlock [2] None; mkBlock [] None ].
 
 (* b0: x := source(); goto b1      b1: sink(x); if Validate(x) goto b1 else b2      b2: return
-   ( for { sink(x); if !Validate(x) { break } } ) *)
+   ( for { sink(x); if !Validate(x) { break } } ): the sink is reached BEFORE the check of its own block *)
 Definition dowhile : cfg :=
   [ mkBlock [1] None; mkBlock [1; 2] (Some (1, valid_x)); mkBlock [] None ].
 
@@ -767,11 +731,11 @@ Proof.
   intro H.
   assert (P : cfg_path diamond 0 3 [0; 1; 3]).
   { exists [1; 0]. split; [|reflexivity]. apply rp_step; [apply rp_start|]; simpl; auto. }
-  assert (F : find_path diamond 0 3 = Found [0; 2; 3; 3]) by (vm_compute; reflexivity).
-  assert (D : edge_dropped (as_predicate_to (simple_path_condition diamond [0; 2; 3; 3]) vx) = true)
+  assert (F : find_path diamond 0 3 = Found [0; 2; 3]) by (vm_compute; reflexivity).
+  assert (D : edge_dropped (as_predicate_to (simple_path_condition diamond [0; 2; 3]) vx) = true)
     by (vm_compute; reflexivity).
   assert (W : wf_cfg diamond) by (apply wf_cfgb_ok; vm_compute; reflexivity).
-  specialize (H diamond 0 3 vx [0; 2; 3; 3] W F D [0; 1; 3] P).
+  specialize (H diamond 0 3 vx [0; 2; 3] W F D [0; 1; 3] P).
   apply passes_b_iff in H. vm_compute in H. discriminate.
 Qed.
 
@@ -781,36 +745,27 @@ Lemma validator_drop_refuted_triangle :
     edge_dropped (as_predicate_to (simple_path_condition triangle raw) vx) = true /\
     cfg_path triangle 0 2 p /\ ~ passes_validated_branch triangle p vx.
 Proof.
-  exists [0; 2; 2], [0; 1; 2]. split; [vm_compute; reflexivity|]. split; [vm_compute; reflexivity|]. split.
+  exists [0; 2], [0; 1; 2]. split; [vm_compute; reflexivity|]. split; [vm_compute; reflexivity|]. split.
   - exists [1; 0]. split; [|reflexivity]. apply rp_step; [apply rp_start|]; simpl; auto.
   - intro H. apply passes_b_iff in H. vm_compute in H. discriminate.
 Qed.
 
-(* Even the found path need not take a validated branch: PathToLeaf emits the destination block twice, so a validated
-   branch from the destination block back to itself is collected although the call is reached BEFORE that branch. *)
-Lemma found_path_validated_refuted : ~ found_path_validated.
-Proof.
-  intro H.
-  assert (F : find_path dowhile 0 1 = Found [0; 1; 1]) by (vm_compute; reflexivity).
-  assert (D : edge_dropped (as_predicate_to (simple_path_condition dowhile [0; 1; 1]) vx) = true)
-    by (vm_compute; reflexivity).
-  assert (W : wf_cfg dowhile) by (apply wf_cfgb_ok; vm_compute; reflexivity).
-  destruct (H dowhile 0 1 vx [0; 1; 1] W F D) as (p & E & _ & HP).
-  assert (p = [0; 1]).
-  { change [0; 1; 1] with ([0; 1] ++ [1]) in E. apply app_inj_tail in E. destruct E; auto. }
-  subst p. apply passes_b_iff in HP. vm_compute in HP. discriminate.
-Qed.
+(* regression witness of the repaired finding validator-dup-last-block: the edge into the do-while sink is KEPT *)
+Example dowhile_kept :
+  find_path dowhile 0 1 = Found [0; 1] /\
+  edge_dropped (as_predicate_to (simple_path_condition dowhile [0; 1]) vx) = false.
+Proof. split; vm_compute; reflexivity. Qed.
 
 (* non-vacuity of validator_single_path_partial / ideal_dropped_exact: a dropped edge all of whose paths are validated *)
 Example early_return_dropped :
   wf_cfgb early_return = true /\
-  find_path early_return 0 2 = Found [0; 2; 2] /\
-  edge_dropped (as_predicate_to (simple_path_condition early_return [0; 2; 2]) vx) = true /\
+  find_path early_return 0 2 = Found [0; 2] /\
+  edge_dropped (as_predicate_to (simple_path_condition early_return [0; 2]) vx) = true /\
   ideal_kept early_return 0 2 vx = NoPath.
 Proof. repeat split; vm_compute; reflexivity. Qed.
 
 (* non-vacuity of ideal_kept_exact: the spec finds the bypass in the diamond *)
-Example diamond_bypass : ideal_kept diamond 0 3 vx = Found [0; 1; 3; 3].
+Example diamond_bypass : ideal_kept diamond 0 3 vx = Found [0; 1; 3].
 Proof. vm_compute. reflexivity. Qed.
 
 (* the conditions of the witnesses are well-formed, and a validator condition in the sense of ivc_char *)
